@@ -1,6 +1,7 @@
 /-
   The workspace follows the buffers (model HL/Model/WsDocs.lean): for histories of
-  didOpen / didChange / didSave on files of the client's view that keep their include lists,
+  didOpen / didChange / didSave / didClose on files of the client's view that keep their include
+  lists,
   the workspace invariant `WInv` holds with respect to the CLIENT's view (buffers over disk),
   so the tree held for every member file is that of the client's current text.
 
@@ -54,11 +55,14 @@ def calmEv (s : DS) : Ev → Prop
     p ≠ "" ∧ contribOk c = true ∧
       ∃ c0, s.view.get p = some c0 ∧ resolveIncl p c.incs = resolveIncl p c0.incs
   | .save _ => True
+  | .close p =>
+    p ≠ "" ∧ ∃ c c0, s.disk.get p = some c ∧ contribOk c = true ∧ s.view.get p = some c0 ∧
+      resolveIncl p c.incs = resolveIncl p c0.incs
 
 /-- every event of the history is calm in the state it is applied to -/
 def calm (cfg : Cfg) : DS → List Ev → Prop
   | _, [] => True
-  | s, e :: es => calmEv s e ∧ calm cfg (dstep true cfg s e) es
+  | s, e :: es => calmEv s e ∧ calm cfg (dstep {} cfg s e) es
 
 structure DInv (cfg : Cfg) (root : String) (s : DS) : Prop where
   winv : WInv cfg s.view s.w
@@ -76,7 +80,7 @@ theorem set_none {α : Type} (m : AList α) (p q : String) (c : α) (h : (m.set 
     exact ⟨e, h⟩
 
 theorem inv_step (cfg : Cfg) (root : String) (s : DS) (e : Ev) (h : DInv cfg root s)
-    (hc : calmEv s e) : DInv cfg root (dstep true cfg s e) := by
+    (hc : calmEv s e) : DInv cfg root (dstep {} cfg s e) := by
   cases e with
   | openDoc p c =>
     obtain ⟨hp, hcok, c0, h0, hinc⟩ := hc
@@ -153,6 +157,27 @@ theorem inv_step (cfg : Cfg) (root : String) (s : DS) (e : Ev) (h : DInv cfg roo
           · subst e; simp [hd]
           · simp only [e, if_false]; exact h.others q hq
 
+  | close p =>
+    obtain ⟨hp, c, c0, hd, hcok, h0, hinc⟩ := hc
+    simp only [dstep, hd, if_true]
+    have hok' := fsOk_set s.view h.ok p c hp hcok
+    obtain ⟨hw, hr⟩ := updateFile_sameIncs cfg s.view s.disk s.w p c c0 h.winv hok' h0 hinc
+    refine ⟨hw, hok', ?_, ?_, hr.trans h.root⟩
+    · intro q c' hq
+      simp only at hq ⊢
+      rw [get_erase] at hq
+      by_cases e : p = q
+      · simp [e] at hq
+      · simp only [e, if_false] at hq
+        rw [get_set_ne _ _ _ _ e]; exact h.opened q c' hq
+    · intro q hq
+      simp only at hq ⊢
+      rw [get_erase] at hq
+      by_cases e : p = q
+      · subst e; rw [get_set_self, hd]
+      · simp only [e, if_false] at hq
+        rw [get_set_ne _ _ _ _ e]; exact h.others q hq
+
 theorem inv_start (cfg : Cfg) (fs : FS) (hok : fsOk fs = true) (hne : fs ≠ [])
     (hclean : graphsClean cfg fs) (hlim : fs.length ≤ cfg.limit) :
     DInv cfg (rootSel fs) (dstart cfg fs) := by
@@ -160,7 +185,7 @@ theorem inv_start (cfg : Cfg) (fs : FS) (hok : fsOk fs = true) (hne : fs ≠ [])
   exact ⟨i1, hok, fun p c h => by simp [dstart, AList.get] at h, fun _ _ => rfl, i2⟩
 
 theorem inv_run (cfg : Cfg) (root : String) : ∀ (es : List Ev) (s : DS), DInv cfg root s → calm cfg s es →
-    DInv cfg root (es.foldl (dstep true cfg) s) := by
+    DInv cfg root (es.foldl (dstep {} cfg) s) := by
   intro es
   induction es with
   | nil => intro s h _; exact h
